@@ -1005,3 +1005,75 @@ def c06_relations(kind, y=None, w=None, lam=None, c=0, a=0, b=0, kernel=None, re
                 if not same_l or np.max(np.abs((o1 - cc) - o0)) > 1:
                     return {"violates": True, "why": f"offset {cc}", "y": y0, "lopt": [l0_, l1_], "maxdiff": float(np.max(np.abs((o1 - cc) - o0))), "llas": g}
     return {"violates": False}
+
+
+# ------------------------------------------------------------------ C20
+def c20_tinterpolate(name, x, template, labels, mode):
+    from hdc.algo import ops
+    from fractions import Fraction as F
+    rng = np.random.default_rng(41)
+    template = [int(t) for t in template]
+    D = len(template)
+    days = [d for d in range(D) if template[d]]
+    runs = []
+    s = 0
+    for i in range(1, D + 1):
+        if i == D or labels[i] != labels[i - 1]:
+            runs.append((s, i))
+            s = i
+    trials = [list(x)] + [list(rng.integers(-500, 9000, len(days))) for _ in range(3)] + [[0 if k % 3 == 0 else int(v) for k, v in enumerate(rng.integers(1, 9000, len(days)))]]
+    if mode == "constant":
+        trials = [[int(x[0])] * len(days), [1234] * len(days)]
+    if mode == "linear":
+        trials = [[int(100 + 7 * d) for d in days], [int(9000 - 13 * d) for d in days]]
+    for xv in trials:
+        xa = np.array(xv, dtype="int16")
+        tmpl = np.array(template, dtype="float64")
+        lab = np.array(labels, dtype="int32")
+        tcopy, lcopy = tmpl.copy(), lab.copy()
+        sentinel = np.full(len(runs), -77, dtype="int16")
+        out = ops.tinterpolate(xa, tmpl, lab, np.zeros(len(runs), dtype="uint8"))
+        if not np.array_equal(tmpl, tcopy) or not np.array_equal(lab, lcopy):
+            return {"violates": True, "why": "inputs modified"}
+        # exact rational reference: solve the normal equations in Fractions (banded elimination)
+        n = D
+        lam = F(1, 100000)
+        A = [[F(0)] * n for _ in range(n)]
+        for i in range(n):
+            A[i][i] += template[i]
+        for r in range(n - 2):
+            row = {r: 1, r + 1: -2, r + 2: 1}
+            for i, a in row.items():
+                for j, b in row.items():
+                    A[i][j] += lam * a * b
+        rhs = [F(0)] * n
+        for j, d in enumerate(days):
+            rhs[d] = F(int(xv[j]))
+        for i in range(n):          # Gaussian elimination, band width 2
+            piv = A[i][i]
+            for r in range(i + 1, min(n, i + 3)):
+                if A[r][i] != 0:
+                    f = A[r][i] / piv
+                    for cidx in range(i, min(n, i + 3)):
+                        A[r][cidx] -= f * A[i][cidx]
+                    rhs[r] -= f * rhs[i]
+        z = [F(0)] * n
+        for i in range(n - 1, -1, -1):
+            acc = rhs[i]
+            for cidx in range(i + 1, min(n, i + 3)):
+                acc -= A[i][cidx] * z[cidx]
+            z[i] = acc / A[i][i]
+        bad = []
+        if len(out) != len(runs):
+            return {"violates": True, "why": f"{len(out)} outputs for {len(runs)} label runs"}
+        for k, (s_, e_) in enumerate(runs):
+            mean = sum(z[s_:e_]) / (e_ - s_)
+            fl = mean.numerator // mean.denominator
+            frac = mean - fl
+            tie = abs(float(frac) - 0.5) < 1e-4
+            ref = round(mean)
+            if out[k] != ref and not (tie and abs(int(out[k]) - float(mean)) <= 0.5 + 1e-4):
+                bad.append((k, int(out[k]), float(mean)))
+        if bad:
+            return {"violates": True, "why": "period value is not the rounded mean of the daily curve", "x": xv, "bad": bad[:4]}
+    return {"violates": False}
